@@ -19,7 +19,9 @@ FixedTargets == { W3("a", <<"-", "-", "-">>, "b"), W3("a", <<".", ".", ".">>, "b
                   W3("a", <<"-", "-", "-", "b">>, "c"), W3("a", <<"-">>, "b"), W3("a", <<"-", "-">>, "b"), W3("a", <<"#">>, "b"), W3("a", <<"#", "b">>, "c"),
                   W3("a", <<"?">>, "b"), W3("a", <<":">>, "b"), W3("a", <<"|">>, "b"), W3("a", <<">">>, "b"), W3("a", <<"&", "x">>, "b"), W3("a", <<"*", "x">>, "b"),
                   W3("a", <<"!", "t">>, "b"), W3("a", <<"%", "Y">>, "b"), W3("a", <<"[", "x", "]">>, "b"), W3("a", <<"{", "x", "}">>, "b"), W3("a", <<"'">>, "b"),
-                  W3("a", <<"\"">>, "b"), W3("a", <<",">>, "b"), W3("a", <<"k", ":">>, "b"), W3("a", <<"-", " ", "x">>, "b") }
+                  W3("a", <<"\"">>, "b"), W3("a", <<",">>, "b"), W3("a", <<"k", ":">>, "b"), W3("a", <<"-", " ", "x">>, "b"),
+                  \* a last word that is an indicator (in a flow collection it is followed by "," or the closing bracket)
+                  <<"a", " ", "-">>, <<"1", " ", "-">>, <<"a", " ", "?">>, <<"a", " ", "-", "-">>, <<"a", " ", "b", " ", "-">>, <<"a", " ", "!">>, <<"a", " ", "&">>, <<"a", " ", "*">>, <<"a", " ", "|">>, <<"a", " ", ">">>, <<"a", " ", "%">>, <<"a", " ", "@">> }
 \* long words with a character that could be taken for syntax right at, before and after the sizes of the scanner's buffers
 Rep(c, k) == [i \in 1..k |-> c]
 LongTargets == UNION { { Rep("a", k) \o <<"#", "q">>, Rep("a", k) \o <<":", "q">>, Rep("a", k) \o <<" ", "b">>, Rep("a", k) \o <<"\t", "b">>, Rep("a", k - 1) \o <<"<u233>", "#", "q">> } :
